@@ -157,13 +157,25 @@ def diagonalize_form(bilinear_form,
     eigs, U = eigh(bilinear_form)
     Uinv = conjugate(U.swapaxes(-1, -2))
 
-    Dinv = construct_diagonal(np.sqrt(np.abs(eigs)))
+    n_eigs = eigs.astype('float64')
+
+    # eigenvalues which vanish up to roundoff (same threshold as
+    # np.linalg.matrix_rank) span the kernel of a degenerate form. W
+    # does not rescale those directions, so that it stays invertible
+    # and W^T B W has zeros (not +-1) in the corresponding slots.
+    abs_eigs = np.abs(n_eigs)
+    null = abs_eigs <= (n * np.finfo('float64').eps *
+                        np.max(abs_eigs, axis=-1, keepdims=True))
+    n_eigs[null] = 0
+
+    scales = np.sqrt(np.abs(eigs))
+    scales[null] = 1
+
+    Dinv = construct_diagonal(scales)
     D = zeros(Dinv.shape, like=Dinv)
 
     close_to_zero = np.isclose(Dinv.astype('float64'), 0.)
     np.divide(1, Dinv, out=D, where=~close_to_zero)
-
-    n_eigs = eigs.astype('float64')
 
     W = U @ D
 
